@@ -200,7 +200,7 @@ def r11_7(ctx):
             return out
 
         def identity_established(bi):
-            for op, a, b2, si in normalized_guards(ctx, b, bi):
+            for op, a, b2, si in shared.facts_at(ctx, b, bi):
                 if op == 'true' and is_call(a, 'PartialEq::eq') and len(a[2]) == 2:
                     x0, x1 = strip_all(a[2][0]), strip_all(a[2][1])
                     if (is_self_field(x0, 'transform') and is_call(x1, 'identity')) or (is_self_field(x1, 'transform') and is_call(x0, 'identity')):
@@ -243,7 +243,8 @@ def r11_7(ctx):
                      % (short(q), fmt(b, pair[0] if space(pair[0]) == {'user'} else pair[1]), fmt(b, pair[1] if space(pair[0]) == {'user'} else pair[0]), pair[2]))
         else:
             ctx.ok(R, key, b.loc(), '%d mixed sites, all under transform == identity' % len(sites))
-    ctx.floor(R, 'DrawTarget methods scanned for space mixing', nfun, 39)
+    ctx.floor(R, 'DrawTarget methods scanned for space mixing', nfun, 30)
+    ctx.floor(R, 'mixed-space sites met (the fast path of fill_rect is one)', nsite, 1)
 
 
 def r11_8(ctx):
@@ -269,7 +270,7 @@ def r11_8(ctx):
                 hits.append(bi)
         ctx.check(not hits, R, short(q) + '|source drawn under the caller\'s transform', call_line(b, hits[0]) if hits else b.loc(), 'no write to self.transform',
                   '%s receives its caller\'s Source and changes self.transform before drawing: a gradient or image source is then positioned by a different transform than the one the caller set (sources are fixed in user space)' % short(q))
-    ctx.floor(R, 'methods drawing a caller-supplied Source', n, 5)
+    ctx.floor(R, 'methods drawing a caller-supplied Source', n, 4)
 
 
 def _r04_5(ctx):
